@@ -44,17 +44,23 @@ def run_one(pid: str, tier: str) -> int:
         import traceback
 
         where = [f"{Path(fs.filename).name}:{fs.lineno} {fs.name}" for fs in traceback.extract_stack(frame) if "/verif/rules/" in fs.filename or "/verif/engine/" in fs.filename]
-        raise core.AnalysisError(f"time budget of {budget} s exceeded (a symbolic comparison did not terminate in time) at {' > '.join(where[-3:])}")
+        raise core.AnalysisError(f"CPU-time budget of {budget} s exceeded (a symbolic comparison did not terminate in time) at {' > '.join(where[-3:])}")
 
     import signal
 
-    old = signal.signal(signal.SIGALRM, _over)
-    signal.alarm(budget)
+    # the budget counts CPU time of this process (ITIMER_PROF), so that a loaded machine does not turn a finishing
+    # analysis into a broken one; a wall-clock backstop of ten times the budget covers a blocked child process
+    old = signal.signal(signal.SIGPROF, _over)
+    old_a = signal.signal(signal.SIGALRM, _over)
+    signal.setitimer(signal.ITIMER_PROF, budget)
+    signal.alarm(10 * budget)
     try:
         code = core.run_check(pid, tier, mod.run, level=LEVELS.get(pid, "other"))
     finally:
+        signal.setitimer(signal.ITIMER_PROF, 0)
         signal.alarm(0)
-        signal.signal(signal.SIGALRM, old)
+        signal.signal(signal.SIGPROF, old)
+        signal.signal(signal.SIGALRM, old_a)
     if tier == "thorough" and code == 0 and hasattr(mod, "selftest") and os.environ.get("VERIF_NO_SELFTEST") != "1":
         from engine import selftest
 
